@@ -130,6 +130,13 @@ func (mem *Mempool) checkTxs(msg *queue.Message) *queue.Message {
 	if txs == nil {
 		return mem.checkTx(msg)
 	}
+	// the wrapper is what gets pooled, indexed by its sender and nonce-checked, while only the members inside
+	// its Header are validated below: it must be the head member (Transactions.Tx copies the head and sets Header)
+	if head := txs.Txs[0]; !bytes.Equal(head.Hash(), cacheTx.Hash()) ||
+		!bytes.Equal(types.Encode(head.GetSignature()), types.Encode(cacheTx.GetSignature())) {
+		msg.Data = types.ErrTxGroupHeader
+		return msg
+	}
 	//txgroup 的交易，逐笔走 checkTx（已含黑名单深度判定）
 	for i := 0; i < len(txs.Txs); i++ {
 		msgitem := mem.checkTx(&queue.Message{Data: txs.Txs[i]})
